@@ -142,9 +142,11 @@ Definition p_end := p_num MissingEnd InvalidEnd U64MAX.
 Definition is_dot (s : bytes) : bool := match s with [d] => d =? DOT | _ => false end.
 Definition p_name := take_field MissingName (fun s => POk (if is_dot s then None else Some s)).
 (* Score::from_str: u32, then try_from(n).unwrap_or(Score(1000)) *)
+Definition score_from_str (s : bytes) : option N :=
+  match parse_uint U32MAX s with Some v => Some (if 1000 <? v then 1000 else v) | None => None end.
 Definition p_score := take_field MissingScore (fun s =>
   if is_dot s then POk None else
-  match parse_uint U32MAX s with Some v => POk (Some (if 1000 <? v then 1000 else v)) | None => PErr InvalidScore end).
+  match score_from_str s with Some v => POk (Some v) | None => PErr InvalidScore end).
 Definition p_strand := take_field MissingStrand (fun s =>
   if is_dot s then POk None else
   match s with
